@@ -64,7 +64,7 @@ package scheduler
 // placeholder whose replacement already sits on another node, adjusted by real - placeholder), preempting resources
 // are given back for preempted ones, and every released placeholder is taken out of the placeholder counter
 //@ func (pc *PartitionContext) removeNodeAllocations(node *objects.Node) (released []*objects.Allocation, confirmed []*objects.Allocation)
-//@   props C03
+//@   props C03 C04
 //@   sweep
 //@   mode nopanic=off
 //@   at[swapdelta] call objects.Queue.TryIncAllocatedResource#1: assert arg0 == queue && alloc.placeholder && (forall t Key :: rv(arg1, t) == clamp64(rv(release.allocatedResource, t) - rv(alloc.allocatedResource, t))) && (exists t Key :: rv(arg1, t) < 0)
@@ -73,6 +73,7 @@ package scheduler
 //@   at[phcount] call scheduler.PartitionContext.decPhAllocationCount#* after: assume phcounted(alloc)
 //@   at[phcounted] append released#*: assert elem == alloc && (!alloc.placeholder || phcounted(alloc))
 //@   at[confirmed] append confirmed#1: assert elem == release && alloc.placeholder && alloc.nodeID != release.nodeID
+//@   at[realask:C04,C06,C03] call objects.Application.DeallocateAsk#1: assert arg0 == app && arg1 == (alloc.placeholder ? release.allocationKey : alloc.allocationKey)
 
 // ================================================================ C06 / C13: release processing
 
